@@ -18,6 +18,53 @@ KINDS = ("vertices", "edges", "faces", "cells")
 CORNER_KINDS = {"face_corners": "faces", "cell_corners": "cells"}
 
 
+# --------------------------------------------------------------------------- cheap resolve
+def clean(node):
+    """Structural copy of an AST without the `_parent` back links (copy.deepcopy would follow them and copy the
+    whole module, which makes sym.Bindings.resolve very slow)."""
+    if isinstance(node, ast.AST):
+        new = node.__class__()
+        for f in node._fields:
+            if hasattr(node, f):
+                setattr(new, f, clean(getattr(node, f)))
+        for a in ("lineno", "col_offset", "end_lineno", "end_col_offset"):
+            if hasattr(node, a):
+                setattr(new, a, getattr(node, a))
+        return new
+    if isinstance(node, list):
+        return [clean(x) for x in node]
+    return node
+
+
+class _Subst(ast.NodeTransformer):
+    def __init__(self, mapping):
+        self.mapping = mapping
+
+    def visit_Name(self, node):
+        if isinstance(node.ctx, ast.Load) and node.id in self.mapping:
+            return clean(self.mapping[node.id])
+        return node
+
+
+def subst(expr, mapping):
+    return _Subst(mapping).visit(clean(expr))
+
+
+def resolve(b, expr, at, keep=(), depth=8):
+    """Same contract as sym.Bindings.resolve(expr, at=..., keep=...): substitute local names by the definition
+    reaching `at`, repeatedly; local version that does not deep-copy parent links."""
+    if depth <= 0:
+        return clean(expr)
+    mapping = {}
+    for n in au.names(expr):
+        if n in keep:
+            continue
+        d = b.reaching(n, at)
+        if d is not None and n not in au.names(d):
+            mapping[n] = resolve(b, d, getattr(b, "_last_def_stmt", at), keep, depth - 1)
+    return subst(expr, mapping) if mapping else clean(expr)
+
+
 # --------------------------------------------------------------------------- formatting leaves
 class Leaf:
     """One value rendered as text. spec: '' = default rendering, other str = explicit spec,
@@ -136,7 +183,12 @@ def percent_parts(binop, b=None):
 
 
 def leaves(fn, b=None):
-    """Every formatting leaf of a function body (not entering nested defs)."""
+    """Every formatting leaf of a function body (not entering nested defs); a default-formatted field that is itself a
+    string expression is not a leaf (its own fields are)."""
+    return [lf for lf in _leaves(fn, b) if not (lf.plain() and _is_text_expr(lf.expr))]
+
+
+def _leaves(fn, b=None):
     out = []
     inside_spec = set()
     for n in au.walk(fn):
@@ -172,7 +224,31 @@ class Join:
 
 
 def flatten(expr, b, at, depth=6):
-    """Text written by `expr` as a list of ('lit', s) | ('leaf', Leaf) | ('join', Join) | ('unknown', node)."""
+    """Text written by `expr` as a list of ('lit', s) | ('leaf', Leaf) | ('join', Join) | ('unknown', node).
+    A default-formatted field whose value is itself a string expression (`'{} {}'.format(n, ' '.join(..))`) is expanded."""
+    out = []
+    for p in _flatten(expr, b, at, depth):
+        if p[0] == "leaf" and p[1].plain() and depth > 1 and _is_text_expr(p[1].expr):
+            out += flatten(p[1].expr, b, at, depth - 1)
+        else:
+            out.append(p)
+    return out
+
+
+def _is_text_expr(e):
+    if isinstance(e, ast.JoinedStr):
+        return True
+    if isinstance(e, ast.Call) and isinstance(e.func, ast.Attribute) and e.func.attr in ("join", "format") \
+            and isinstance(e.func.value, ast.Constant) and isinstance(e.func.value.value, str):
+        return True
+    if isinstance(e, ast.BinOp) and isinstance(e.op, ast.Add) and (_is_text_expr(e.left) or _is_text_expr(e.right)
+                                                                  or (isinstance(e.left, ast.Constant) and isinstance(e.left.value, str))
+                                                                  or (isinstance(e.right, ast.Constant) and isinstance(e.right.value, str))):
+        return True
+    return False
+
+
+def _flatten(expr, b, at, depth=6):
     if depth <= 0:
         return [("unknown", expr)]
     if isinstance(expr, ast.Constant) and isinstance(expr.value, str):
@@ -296,16 +372,24 @@ class Prov:
     def find_binding(self, name, at):
         """(target, source expr, how, node) of the innermost binding of `name` visible at node `at`."""
         child = at
+        via_iter = False
         for a in au.ancestors(at):
+            if isinstance(a, ast.comprehension):
+                via_iter = child is a.iter
+                child = a
+                continue
             if isinstance(a, (ast.For, ast.AsyncFor)):
                 if child is not a.iter and child is not a.target and name in au.assigned_names(a.target):
                     return a.target, a.iter, "for", a
             elif isinstance(a, (ast.ListComp, ast.GeneratorExp, ast.SetComp, ast.DictComp)):
-                for gi, g in enumerate(a.generators):
+                gens = a.generators
+                if isinstance(child, ast.comprehension):
+                    k = [i for i, g in enumerate(gens) if g is child][0]
+                    visible = gens[:k] if via_iter else gens[:k + 1]
+                else:
+                    visible = gens
+                for g in reversed(visible):
                     if name in au.assigned_names(g.target):
-                        # visible in elt, in the ifs of this and later generators, in later iters
-                        if child is g and gi == 0:
-                            continue
                         return g.target, g.iter, "comp", a
             if isinstance(a, (ast.FunctionDef, ast.AsyncFunctionDef)):
                 break
@@ -344,7 +428,7 @@ class Prov:
                 if k in CORNER_KINDS:
                     return ("elem", CORNER_KINDS[k], None) if isinstance(target, ast.Name) else None
                 return self._from_row(target, name, k)
-            rk = self.row_expr_kind(inner, node, depth + 1)
+            rk = self.row_expr_kind(self.unwrap_row(inner), node, depth + 1)
             if rk is not None and isinstance(target, ast.Name):
                 return ("elem", rk, None)
             return None
@@ -352,6 +436,22 @@ class Prov:
         if rk is not None:
             return self._from_row(target, name, rk)
         return None
+
+    ROW_WRAPPERS = {"sorted", "reversed", "list", "tuple", "set", "frozenset", "keyify", "array", "asarray", "flip", "sort",
+                    "unique"}
+
+    @classmethod
+    def unwrap_row(cls, e):
+        """`sorted(face)`, `face[::-1]`, `list(face)` -> `face` (the elements are still those of the row; whether
+        their order survives is the business of C04-V1)."""
+        for _ in range(4):
+            if isinstance(e, ast.Call) and au.call_tail(e) in cls.ROW_WRAPPERS and e.args:
+                e = e.args[0]
+            elif isinstance(e, ast.Subscript) and isinstance(e.slice, ast.Slice):
+                e = e.value
+            else:
+                break
+        return e
 
     @staticmethod
     def _from_row(target, name, kind):
